@@ -1,8 +1,13 @@
 (* Conc/CurrentFlags.v - the flags of Conc/Infer.v as the CURRENT source has them (Gen.ConcShape, regenerated each run).
    Definitions only, so that the correspondence (Conc/Run.v) still evaluates - against the model of the source as it is -
    when an obligation of Conc/Current.v no longer holds. *)
-From Coq Require Import List Bool.
+From Coq Require Import String List Bool.
 Require Import Verif.Conc.Infer Verif.Gen.ConcShape.
 
 Definition current_flags : flags :=
   {| f_sorted_apps := sorted_apps; f_sorted_views := sorted_views; f_per_app := per_app_counter |}.
+
+(* second pass: does Parser.Parse start with fresh LetTypes and Messages (the two accumulators the model knows)?  Read off the
+   leading statements of Parse (Gen.ConcShape.parse_reset_fields). *)
+Definition current_resets : bool :=
+  existsb (String.eqb "LetTypes") parse_reset_fields && existsb (String.eqb "Messages") parse_reset_fields.
